@@ -89,6 +89,16 @@ func (u *Unit) assume(guard, fact *Term) {
 	u.assumed[a.id] = true
 	u.assumptions = append(u.assumptions, a)
 	u.assumeTags = append(u.assumeTags, u.curTag)
+	if fact.op == "forall" || fact.op == "and" || fact.op == "=>" {
+		for _, r := range u.reindexFacts(fact) {
+			ra := u.m.tb.Implies(guard, r)
+			if !u.assumed[ra.id] {
+				u.assumed[ra.id] = true
+				u.assumptions = append(u.assumptions, ra)
+				u.assumeTags = append(u.assumeTags, u.curTag)
+			}
+		}
+	}
 }
 
 func (u *Unit) oblige(class, label string, st *State, goal *Term, pos token.Pos, text string) {
